@@ -4,39 +4,50 @@ import (
 	"fmt"
 	"io/ioutil"
 	"os"
-	"path/filepath"
-
-	"github.com/meshplus/bitxhub-model/pb"
-	"github.com/meshplus/bitxhub/verif/harness"
 )
 
 func init() { workloads["smoke"] = smoke }
 
+// smoke is a scratch probe (not part of any check).
 func smoke(args []string) int {
-	dir, _ := ioutil.TempDir("", "verif.smoke.")
+	dir, _ := ioutil.TempDir("", "smoke.")
 	defer os.RemoveAll(dir)
-	w, err := harness.BuildStandard(filepath.Join(dir, "fx"), harness.Options{})
-	if err != nil {
-		fmt.Println("build:", err)
+	kr := &kvRun{prop: "C13", dir: dir}
+	if err := kr.open(); err != nil {
+		fmt.Println(err)
 		return 1
 	}
-	from := harness.FullID(harness.ChainC, "s2")
-	keys := []string{harness.FullID(harness.ChainA, "s1"), harness.FullID(harness.ChainB, "s1")}
-	vals := []uint64{1, 1}
-	grp := &pb.StringUint64Map{Keys: keys, Vals: vals}
-	gid := globalTxID(from, keys, vals)
-	send := func(to string, typ pb.IBTP_Type) {
-		ib := harness.MkIBTP(from, to, 1, typ, 2)
-		ib.Group = grp
-		res, _ := w.Exec(w.IBTPTx(harness.User(0), ib, []byte("p")))
-		fmt.Printf("h=%d %v->%s: %v %s | global status %d | meta %s\n", res.Height, typ, to, res.Receipts[0].Status, string(res.Receipts[0].Ret), w.Status(gid), canonicalMeta(res.Meta))
+	addr := kvAddr(0)
+	show := func(tag string) {
+		ok, v := kr.sl.GetState(addr, []byte("k"))
+		ok2, q := kr.sl.QueryByPrefix(addr, "")
+		fmt.Printf("%-28s GetState=(%v,%q nil=%v) Query=(%v,%q)\n", tag, ok, v, v == nil, ok2, q)
 	}
-	send(keys[0], pb.IBTP_INTERCHAIN)
-	send(keys[0], pb.IBTP_RECEIPT_SUCCESS)
-	for i := 0; i < 3; i++ {
-		res, _ := w.Exec()
-		fmt.Printf("h=%d empty | global status %d | meta %s\n", res.Height, w.Status(gid), canonicalMeta(res.Meta))
+	commit := func(h uint64) {
+		kr.sl.Finalise(true)
+		a, r := kr.sl.FlushDirtyData()
+		if err := kr.sl.Commit(h, a, r); err != nil {
+			fmt.Println("commit", err)
+		}
 	}
-	w.R.Close()
+	kr.sl.SetState(addr, []byte("k"), []byte("v1"), nil)
+	kr.sl.SetState(addr, []byte("j"), []byte("w1"), nil)
+	commit(1)
+	show("after block 1")
+	kr.sl.SetState(addr, []byte("k"), []byte{}, nil)
+	show("empty written, in block")
+	commit(2)
+	show("after block 2 (running)")
+	kr.sl.Close()
+	kr.ldb.Close()
+	kr.open()
+	show("after reopen")
+	kr.sl.SetState(addr, []byte("k"), nil, nil)
+	commit(3)
+	show("deleted, block 3")
+	kr.sl.Close()
+	kr.ldb.Close()
+	kr.open()
+	show("deleted, after reopen")
 	return 0
 }
